@@ -578,9 +578,9 @@ def _grid_names(fl, e, at) -> set[str]:
                     seen.add(k)
                     if s.kind == "param":
                         continue
-                    if s.kind in ("assign",) and s.value is not None and depth > 0 and not isinstance(s.value, ast.Call):
+                    if s.kind in ("assign",) and s.value is not None and depth > 0 and not isinstance(s.value, (ast.Call, ast.ListComp, ast.GeneratorExp, ast.SetComp, ast.DictComp, ast.List, ast.Tuple, ast.Dict)):
                         go(s.value, s.node, depth - 1)
-                    elif s.kind == "assign" and isinstance(s.value, ast.Call) and depth > 0 and unparse(s.value.func) in ("math.prod", "prod", "ChunkKeys"):
+                    elif s.kind == "assign" and isinstance(s.value, ast.Call) and depth > 0 and unparse(s.value.func) in ("math.prod", "prod", "ChunkKeys", "compute_numblocks", "numblocks"):
                         go(s.value, s.node, depth - 1)
                     else:
                         out.add(f"{s.name}@{s.node}")
